@@ -20,6 +20,21 @@ masked); this is where an operation is not exact on a ramp at the border:
   * avg_pool with ceil_mode: the last window is averaged over fewer samples;
   * positive pad / center_pad / ROI beyond the grid: new samples are extrapolated by a non-linear rule,
     only grid/shape and the retained samples are checked.
+
+Programs, not only chains.  An operation returns a NEW object that says where the data now lies; its operand keeps
+describing its own data.  Cases are therefore programs over a pool of live objects: every operation takes the latest
+or an EARLIER object as operand (one object is used by two or more operations), sample() may take the grid(s) of
+another live object as target, pyramid() adds all its levels to the pool.  After every operation every live object
+(operand, original input, earlier results) must hold bit-exactly the voxel data and grid attributes it had when it was
+created - so it still satisfies the ramp oracle it passed then - and mutable argument objects (size / margin / spacing
+tensors and lists, kernels, target grids) must be unchanged.  Results that are views of their operand (narrow,
+center_crop, no-op forms, sample() on the own grid returning self) are fine; only a change of values is an alarm.
+
+Hidden grid state.  Grid keeps a fractional float size after downsample()/pyramid() of odd sizes and after resample()
+(size/2, extent/spacing) while it has ceil(size) points.  Such grids are generated directly: as input grids and as
+sample() targets derived by Grid.downsample()/Grid.resample() (the ramp is then defined on the attributes deepali
+reports), and by the 'fractional' plan (odd sizes -> downsample / pyramid / resample -> sample from the result, or of the
+original onto the result's grid), for both align_corners settings.
 """
 from __future__ import annotations
 
@@ -38,14 +53,19 @@ from vlib.findings import Known
 PROPERTY = "C04"
 MANIFEST = {
     "text": "Generated Image / ImageBatch (N = 1..3, distinct per-image grids) / FlowField / FlowFields (WORLD axes) objects on "
-            "oriented anisotropic grids (D in {2,3}, both align_corners, float32/float64) whose intensity is a per-image linear "
-            "function of world position are pushed through chains of 1-3 operations (resize, resample, downsample, upsample, "
-            "pyramid, crop, pad, center_crop, center_pad, region_of_interest, narrow, avg_pool, conv, sample(grid), batch "
-            "indexing) with arguments of all documented forms; after every step the result must be of the same type, its grids "
-            "must have the shape of its data, every sample computed from inside the original field of view must equal the same "
-            "linear function of the RETURNED grid's world positions (float64 model, bound 64*eps32*condition), and index-only "
-            "operations must be bit-exact copies at the documented offset, per image. A second facet checks the documented "
-            "vector conversion of FlowFields.sample for non-world axes. Exploration, not proof.",
+            "oriented anisotropic grids (D in {2,3}, both align_corners, float32/float64; also grids with a fractional internal "
+            "size derived by Grid.downsample/resample, and batches whose images share one Grid object) whose intensity is a "
+            "per-image linear function of world position are pushed through programs of 1-4 operations (resize, resample, "
+            "downsample, upsample, pyramid, crop, pad, center_crop, center_pad, region_of_interest, narrow, avg_pool, conv, "
+            "sample(grid), batch indexing; depth <= 3) with arguments of all documented forms (int, varargs, list, tuple, "
+            "tensor; scalar fill / padding constants of both signs). Each operation is applied to the latest or to an earlier "
+            "live object (fan-out), sample() may target the grids of another live object. After every step the result must be "
+            "of the same type, its grids must have the shape of its data, every sample computed from inside the original field "
+            "of view must equal the same linear function of the RETURNED grid's world positions (float64 model, bound "
+            "64*eps32*condition), index-only operations must be bit-exact copies at the documented offset, per image, and "
+            "every live object (operand, input, earlier results) and every mutable argument object must be bit-exactly "
+            "unchanged. A second facet checks the documented vector conversion of FlowFields.sample for non-world axes, "
+            "also from / onto grids with a fractional internal size. Exploration, not proof.",
     "note": "Trusted: float64 grid model of vlib/ref.py (index->world), the footprint model of each operation in props/c04.py "
             "(which source samples a result sample reads; torch interpolate/grid_sample/avg_pool/conv semantics), exactness of "
             "linear interpolation / symmetric unit-sum kernels on linear ramps. Samples whose footprint leaves the original "
@@ -56,7 +76,18 @@ MANIFEST = {
 ASSUMPTIONS = [
     "samples of grids with a fractional internal size (Grid keeps size/2 after downsample, extent/spacing after resample) are "
     "addressed by the rounded size the data tensor has; upsample / downsample(min_size) on such grids are known findings K3 / K4 "
-    "and are not generated while those are listed in known_findings.json (case field 'avoid')",
+    "and are not generated while those are listed in known_findings.json (case field 'avoid'); this routing looks at the "
+    "internal size of the actual operand, so it also covers derived input grids and operands taken from the pool",
+    "methods without trailing underscore return new objects ('Returns: new grid / batch of ...' docstrings; in-place variants "
+    "are named xxx_): operand, other live objects and argument objects are compared bit-exactly (data, Grid _size/_center/"
+    "_spacing/_direction/_align_corners) with snapshots taken at creation; results may share storage with their operand "
+    "(narrow, center_crop, no-op forms; sample() on the own grids returns self as documented) - aliasing is not an alarm",
+    "derived grids: input grid = Grid(2n-1 points, spacing/2).downsample() or Grid.resample(spacing*r), r in [0.6, 1.6]; target "
+    "grid likewise; the ramp / the expectation is defined on the attributes the derived grid reports. extent/spacing is rounded "
+    "in float32, so when the images of a batch would get different point counts the underived grids are used",
+    "tensor-valued size / margin / spacing arguments (type Array) are generated for resize, resample, crop, pad, center_crop, "
+    "center_pad; region_of_interest(start, size) is generated with int / tuple / list only: core.image.region_of_interest "
+    "explicitly raises TypeError for anything but int or a sequence of ints (observation, not asserted)",
     "grids: 2-D sizes 4..12, 3-D sizes 3..7, spacing in [0.25, 4], |center| <= 100, |det direction| = 1; intermediate sizes "
     "kept in [2, 40] (2-D) / [2, 20] (3-D) per axis by resolving relative operation arguments against the current size",
     "field of view = convex hull of sample centres; border samples that read padded / clamped values are masked by a float64 "
@@ -192,6 +223,15 @@ class State:
         self.dtype = dtype
         self.axes = axes
         self.chan = None          # (start, length) if channels were narrowed
+        self.pool = None          # list of all live States of the program (fan-out: any of them may be used again)
+        self.name = "input"
+        self.snap = None          # (data clone, per grid attribute clones) taken when the object was created
+
+    def fork(self):
+        """New State describing the same object; step() / run_pyramid() turn it into the description of a result."""
+        s = State(self.kind, self.obj, self.items, self.dtype, self.axes)
+        s.chan, s.pool = self.chan, self.pool
+        return s
 
     @property
     def is_batch(self):
@@ -217,6 +257,75 @@ class State:
         return self.items[0].model.D
 
 
+def derived_grid(desc, derive):
+    """Input grid of one image: the generated grid, or a grid DERIVED from a generated one by a Grid operation, so that
+    its internal float size is fractional while it has ceil(size) points (state that downsample / pyramid / resample
+    leave behind): {"how": "downsample"} halves a grid of 2n-1 points, {"how": "resample", "r": [...]} resamples."""
+    if not derive:
+        return make_grid(desc)
+    if derive["how"] == "downsample":
+        d2 = dict(desc, size=[2 * int(n) - 1 for n in desc["size"]], spacing=[float(v) / 2 for v in desc["spacing"]])
+        return make_grid(d2).downsample()
+    g = make_grid(desc)
+    sp = [float(np.float32(float(v) * float(r))) for v, r in zip(g.spacing().tolist(), derive["r"])]
+    return g.resample(sp)
+
+
+def grid_snapshot(g):
+    return (g._size.clone(), g._center.clone(), g._spacing.clone(), g._direction.clone(), bool(g._align_corners))
+
+
+def grid_unchanged(g, snap) -> bool:
+    return (all(a.shape == b.shape and torch.equal(a, b) for a, b in zip((g._size, g._center, g._spacing, g._direction), snap[:4]))
+            and bool(g._align_corners) == snap[4])
+
+
+def take_snapshot(state: State):
+    t = state.obj.tensor().detach().as_subclass(torch.Tensor).clone()
+    state.snap = (t, [grid_snapshot(g) for g in state.grids()])
+
+
+def verify_pool(pool, src_idx: int, opname: str, note: str):
+    """Operations return NEW objects: every live object (the operand, the original input, earlier results) must still hold
+    bit-exactly the data and grids it had when it was created, so that it still satisfies its own ramp oracle."""
+    for k, st_ in enumerate(pool):
+        if st_.snap is None:
+            continue
+        who = "operand" if k == src_idx else "other_live_object"
+        t, gsnaps = st_.snap
+        cur = st_.obj.tensor().detach().as_subclass(torch.Tensor)
+        if cur.shape != t.shape or not torch.equal(cur, t):
+            d = float((cur.double() - t.double()).abs().max()) if cur.shape == t.shape else float("nan")
+            raise Violation(f"{who}_data_modified:{opname}", f"{note}: the voxel data of {st_.name} (pool index {k}) changed in place "
+                                                             f"(max |delta| = {d:.6g}); it no longer matches its own grid")
+        grids = st_.grids()
+        if len(grids) != len(gsnaps) or not all(grid_unchanged(g, sn) for g, sn in zip(grids, gsnaps)):
+            raise Violation(f"{who}_grid_modified:{opname}", f"{note}: a sampling grid of {st_.name} (pool index {k}) changed in place: "
+                                                             f"{[repr(g) for g in grids]}")
+
+
+def arg_snapshot(x):
+    from deepali.core import Grid
+
+    if isinstance(x, torch.Tensor):
+        return ("t", x.detach().clone())
+    if isinstance(x, Grid):
+        return ("g", grid_snapshot(x))
+    if isinstance(x, (list, tuple)):
+        return ("s", type(x), [arg_snapshot(v) for v in x])
+    return ("v", x)
+
+
+def arg_unchanged(x, snap) -> bool:
+    if snap[0] == "t":
+        return isinstance(x, torch.Tensor) and x.shape == snap[1].shape and x.dtype == snap[1].dtype and torch.equal(x, snap[1])
+    if snap[0] == "g":
+        return grid_unchanged(x, snap[1])
+    if snap[0] == "s":
+        return type(x) is snap[1] and len(x) == len(snap[2]) and all(arg_unchanged(v, sn) for v, sn in zip(x, snap[2]))
+    return x is snap[1] or x == snap[1]
+
+
 def build_input(case):
     from deepali.core import Axes
     from deepali.data import FlowField, FlowFields, Image, ImageBatch
@@ -227,8 +336,18 @@ def build_input(case):
     C = D if kind.startswith("flow") else case["C"]
     axes = case.get("axes", "world")
     items, tensors, dgrids = [], [], []
+    derive = case.get("derive")
+    share = bool(case.get("share_grid")) and kind in ("batch", "flowfields")
+    if derive and not share and len({tuple(derived_grid(g, derive).size()) for g in grids}) > 1:
+        derive = None  # resample rounds extent / spacing in float32: the images of a batch must keep one common shape
     for i, g in enumerate(grids):
-        m = ref.GridModel.from_desc(g)
+        if share and i > 0:
+            dg = dgrids[0]  # ONE Grid object for all images of the batch
+        else:
+            dg = derived_grid(g, derive)
+        # the ramp is defined on the grid deepali reports (float64 model of its float32 attributes) when the input grid was
+        # derived by a Grid operation, else on the float64 model of the generated descriptor
+        m = model_of(dg) if (derive or share) else ref.GridModel.from_desc(g)
         A, p, b = ramp_of(m, case["slopes"][i], case["b0"][i], C)
         vals = ramp_values(A, p, b, m.world_points())
         item = Item(i, A, p, b, m)
@@ -238,16 +357,18 @@ def build_input(case):
             vals = np.tensordot(L, vals, axes=(1, 0))
         items.append(item)
         tensors.append(torch.tensor(vals, dtype=dt))
-        dgrids.append(make_grid(g))
+        dgrids.append(dg)
+    garg = dgrids[0] if (share and case.get("share_grid") == "single") else dgrids
     if kind == "image":
         obj = Image(tensors[0], dgrids[0])
     elif kind == "batch":
-        obj = ImageBatch(torch.stack(tensors), dgrids)
+        obj = ImageBatch(torch.stack(tensors), garg)
     elif kind == "flowfield":
         obj = FlowField(tensors[0], dgrids[0], Axes(axes))
     else:
-        obj = FlowFields(torch.stack(tensors), dgrids, Axes(axes))
+        obj = FlowFields(torch.stack(tensors), garg, Axes(axes))
     st_ = State(kind, obj, items, dt, axes)
+    st_.derived = derive
     for it, dg in zip(items, dgrids):  # from here on the model follows the grid deepali reports
         it.model = model_of(dg)
     return st_
@@ -393,11 +514,17 @@ class Call:
         self.noop = noop
         self.shape = shape        # documented result size (x first) or None
         self.kindtag = kindtag    # suffix that identifies a known sub-domain in violation kinds
+        self.watch = []           # mutable argument objects (tensors, lists, Grids): must be unchanged after the call
 
 
 def _interp_rel(n, m, acs, tol_n, pre=None):
     axes = [("lin", resize_index(n[k], m[k], acs)) for k in range(len(n))]
     return Rel("sep", axes=axes, tol=K * EPS32 * tol_n, pre=pre)
+
+
+def seq_arg(op, values, dtype):
+    """A sequence argument in the generated form: list, or (op['as_tensor']) a 1-D tensor (type Array = Sequence | Tensor)."""
+    return torch.tensor(values, dtype=dtype) if op.get("as_tensor") else list(values)
 
 
 def r_resize(state: State, op, avoid):
@@ -409,13 +536,15 @@ def r_resize(state: State, op, avoid):
         args, kw = (m[0],), {}
     else:
         m = [pick(op["u"][k], 2, mx) for k in range(D)]
-        args = (list(m),) if form == "list" else tuple(m)
+        args = (seq_arg(op, m, torch.int64),) if form == "list" else tuple(m)
     kw = {}
     if op.get("ac") is not None:
         kw["align_corners"] = bool(op["ac"])
     acs = ac_of(state, op)
-    return Call("resize", lambda o: o.resize(*args, **kw), lambda s, ms: _interp_rel(n, m, acs, max(n + m)),
-                note=f"resize({args}, {kw})", shape=m)
+    c = Call("resize", lambda o: o.resize(*args, **kw), lambda s, ms: _interp_rel(n, m, acs, max(n + m)),
+             note=f"resize({args}, {kw})", shape=m)
+    c.watch = list(args)
+    return c
 
 
 def r_resample(state: State, op, avoid):
@@ -443,7 +572,7 @@ def r_resample(state: State, op, avoid):
         r = [clampr(float(op["r"][k]), k) for k in range(D)]
         new = [float(np.float32(s[k] * r[k])) for k in range(D)]
         r = [new[k] / s[k] for k in range(D)]
-        arg = new
+        arg = new if form == "args" else seq_arg(op, new, torch.float32)
     call = (lambda o: o.resample(*arg)) if form == "args" else (lambda o: o.resample(arg))
 
     def rel(st_, models):
@@ -456,6 +585,7 @@ def r_resample(state: State, op, avoid):
 
     c = Call("resample", call, rel, note=f"resample({arg})")
     c.spacing = [s[k] * r[k] for k in range(D)]
+    c.watch = [arg]
     return c
 
 
@@ -609,11 +739,12 @@ def r_crop_pad(state: State, op, avoid):
         kw["margin" if form == "margin_int" else "num"] = arg[0]
     elif form in ("margin", "margin_args"):
         kw["margin"] = [arg[2 * k] for k in range(D)]
-        if form == "margin_args":
-            kw["margin"] = tuple(kw["margin"])
+        kw["margin"] = tuple(kw["margin"]) if form == "margin_args" else seq_arg(op, kw["margin"], torch.int64)
     else:
-        kw["num"] = arg
-    return Call(name, lambda o: getattr(o, name)(**kw), lambda s, ms: rel, note=f"{name}({kw})", shape=m, kindtag=frac_tag(state))
+        kw["num"] = seq_arg(op, arg, torch.int64)
+    c = Call(name, lambda o: getattr(o, name)(**kw), lambda s, ms: rel, note=f"{name}({kw})", shape=m, kindtag=frac_tag(state))
+    c.watch = [kw.get("margin"), kw.get("num")]
+    return c
 
 
 def r_center_crop(state: State, op, avoid):
@@ -624,10 +755,12 @@ def r_center_crop(state: State, op, avoid):
         args = (t[0],)
     else:
         t = [pick(op["u"][k], 2, n[k] + 1) for k in range(D)]
-        args = (list(t),) if form == "list" else tuple(t)
+        args = (seq_arg(op, t, torch.int64),) if form == "list" else tuple(t)
     m = [min(n[k], t[k]) for k in range(D)]
     # the offset of a centre crop is not documented for odd differences: take it from the returned grid (run_chain)
-    return Call("center_crop", lambda o: o.center_crop(*args), "center", note=f"center_crop({args})", shape=m)
+    c = Call("center_crop", lambda o: o.center_crop(*args), "center", note=f"center_crop({args})", shape=m)
+    c.watch = list(args)
+    return c
 
 
 def r_center_pad(state: State, op, avoid):
@@ -638,10 +771,12 @@ def r_center_pad(state: State, op, avoid):
         args = (t[0],)
     else:
         t = [pick(op["u"][k], n[k] - 1, n[k] + 4) for k in range(D)]
-        args = (list(t),) if form == "list" else tuple(t)
+        args = (seq_arg(op, t, torch.int64),) if form == "list" else tuple(t)
     m = [max(n[k], t[k]) for k in range(D)]
     kw = pad_mode_kw(op, n, [-(m[k] - n[k]) for k in range(D) for _ in (0, 1)], D)
-    return Call("center_pad", lambda o: o.center_pad(*args, **kw), "center", note=f"center_pad({args}, {kw})", shape=m)
+    c = Call("center_pad", lambda o: o.center_pad(*args, **kw), "center", note=f"center_pad({args}, {kw})", shape=m)
+    c.watch = list(args)
+    return c
 
 
 def r_roi(state: State, op, avoid):
@@ -668,8 +803,10 @@ def r_roi(state: State, op, avoid):
             kw["padding"] = float(pad)
     if op.get("value") is not None and (pad is None or kw.get("padding") == "constant"):
         kw["value"] = op["value"]
-    return Call("region_of_interest", lambda o: o.region_of_interest(a_start, a_size, **kw), lambda s, ms: rel,
-                note=f"region_of_interest({a_start}, {a_size}, {kw})", shape=m, kindtag=frac_tag(state))
+    c = Call("region_of_interest", lambda o: o.region_of_interest(a_start, a_size, **kw), lambda s, ms: rel,
+             note=f"region_of_interest({a_start}, {a_size}, {kw})", shape=m, kindtag=frac_tag(state))
+    c.watch = [a_start, a_size]
+    return c
 
 
 def r_narrow(state: State, op, avoid):
@@ -822,7 +959,9 @@ def r_conv(state: State, op, avoid):
             axes.append(window_axis(m[k], off, r))
         return Rel("sep", axes=axes)
 
-    return Call("conv", lambda o: o.conv(kern, **kw), rel, note=f"conv({desc}, {kw})", kindtag=":nd_kernel" if kind == "nd" else "")
+    c = Call("conv", lambda o: o.conv(kern, **kw), rel, note=f"conv({desc}, {kw})", kindtag=":nd_kernel" if kind == "nd" else "")
+    c.watch = [kern]
+    return c
 
 
 def target_grid(m: ref.GridModel, spec, i: int, scale):
@@ -845,9 +984,38 @@ def r_sample(state: State, op, avoid):
     D = state.D
     spec = op["target"]
     scale = [float(v) for v in spec["scale"]][:D]
-    models = [target_grid(it.model, spec, i, scale) for i, it in enumerate(state.items)]
-    grids = [Grid(size=[int(v) for v in t.n], spacing=t.s.tolist(), center=t.c.tolist(), direction=torch.tensor(t.R, dtype=torch.float64),
-                  align_corners=t.ac) for t in models]
+    of = spec.get("of")
+    derive = spec.get("derive")
+    what = f"size={spec['size'][:D]}, scale={scale}"
+    if of is not None and state.pool:
+        # target = the grid(s) of another live object of the program (image i is sampled on the grid that belongs to the
+        # same original image where the other object still holds it)
+        k = int(of) % len(state.pool)
+        other = state.pool[k]
+        og, oid = other.grids(), [it.ident for it in other.items]
+        grids = [og[oid.index(it.ident)] if it.ident in oid else og[i % len(og)] for i, it in enumerate(state.items)]
+        what = f"grids of pool object {k} ({other.name})"
+    else:
+        models = [target_grid(it.model, spec, i, scale) for i, it in enumerate(state.items)]
+        grids = []
+        if derive and not isinstance(derive, str):
+            # extent / spacing is rounded in float32: per-image targets may end up with different numbers of points
+            probe = [Grid(size=[int(v) for v in t.n], spacing=t.s.tolist()).resample(
+                [float(np.float32(v * float(r))) for v, r in zip(t.s.tolist(), derive["resample"])]).size() for t in models]
+            if len(set(probe)) > 1:
+                derive = None
+        for t in models:
+            size, spacing = [int(v) for v in t.n], t.s.tolist()
+            if derive == "downsample":  # n points with internal size n - 1/2
+                size, spacing = [2 * v - 1 for v in size], [v / 2 for v in spacing]
+            g = Grid(size=size, spacing=spacing, center=t.c.tolist(), direction=torch.tensor(t.R, dtype=torch.float64), align_corners=t.ac)
+            if derive == "downsample":
+                g = g.downsample()
+            elif derive:  # {"resample": [ratios]}: internal size n / r, ceil(n / r) points
+                g = g.resample([float(np.float32(v * float(r))) for v, r in zip(spacing, derive["resample"])])
+            grids.append(g)
+        if derive:
+            what += f", derived by {derive}"
     kw = {}
     if op.get("padding") is not None:
         kw["padding"] = op["padding"]
@@ -857,8 +1025,10 @@ def r_sample(state: State, op, avoid):
         arg = grids if (len(grids) > 1 or op.get("as_list", True)) else grids[0]
     else:
         arg = grids[0]
-    return Call("sample", lambda o: o.sample(arg, **kw), "world", note=f"sample(size={spec['size'][:D]}, scale={scale}, {kw})",
-                shape=[int(v) for v in models[0].n])
+    c = Call("sample", lambda o: o.sample(arg, **kw), "world", note=f"sample({what}, {kw})", shape=[int(v) for v in grids[0].size()])
+    c.watch = [arg]
+    c.targets = grids
+    return c
 
 
 def r_index(state: State, op, avoid):
@@ -1006,7 +1176,11 @@ def step(state: State, op, avoid, stats):
     t_prev = state.data()
     prev_items = state.items
     N_prev = len(prev_items)
+    watched = [arg_snapshot(x) for x in call.watch]
     out = call_deepali(state, call)
+    if not all(arg_unchanged(x, sn) for x, sn in zip(call.watch, watched)):
+        raise Violation(f"argument_modified:{name}", f"{call.note}: an argument object (size / margin / spacing / kernel tensor or list, "
+                                                     f"target grid) was modified in place by the call; now {call.watch}")
     sel = getattr(call, "sel", None)
     n_items = len(sel) if sel is not None else N_prev
     t, grids = structure(state, out, call, n_items)
@@ -1150,7 +1324,7 @@ def run_pyramid(state: State, op, avoid, stats):
                 tag = ":min_size_straddles_fractional_grid_size"
         break
     if levels < 1:
-        return "pyramid:noop(size)", False
+        return "pyramid:noop(size)", False, []
     start = pick(op.get("start", 0.0), 0, levels - 1)
     end = pick(op.get("end", 1.0), start, levels - 1)
     sigma = op.get("sigma", 0)
@@ -1213,11 +1387,24 @@ def run_pyramid(state: State, op, avoid, stats):
             if any(x != y for x, y in zip(ga, gb)):
                 raise Violation("pyramid_start_level", f"pyramid({levels}, {start}, {end}) level {lv}: grids differ from start=0")
     lv = pick(op.get("pick", 1.0), start, end)
+    extra = []
+    for lv2 in sorted(per_level):
+        if lv2 != lv:
+            e = state.fork()
+            e.obj, e.items = per_level[lv2]
+            extra.append(e)
     state.obj, state.items = per_level[lv]
-    return name, state.size() != n
+    return name, state.size() != n, extra
+
+
+def is_fractional(state: State) -> bool:
+    return any(bool(np.any(f != np.ceil(f))) for f in frac_sizes(state))
 
 
 def run_chain(case):
+    """Interpret a program: op k is applied to the live object op['src'] (index into the pool of all objects created so far,
+    modulo its length; default: the latest, i.e. a chain).  Every result joins the pool; after every operation ALL pool
+    members must be bit-exactly what they were when created (operations return new objects)."""
     state = build_input(case)
     avoid = case.get("avoid", [])
     stats = {"ratio": 0.0, "points": 0, "checked": 0}
@@ -1225,17 +1412,48 @@ def run_chain(case):
     stats["ratio"] = check_values(state, state.items, t0, "input", "input", stats)
     labels = [f"kind={case['kind']}", f"D={case['D']}", f"N={len(case['grids'])}", f"ac={case['grids'][0]['ac']}", case["dtype"],
               f"len={len(case['ops'])}", f"axes={case.get('axes', 'world')}"]
+    if state.derived:
+        labels.append("input_grid=derived:" + state.derived["how"])
+    if case.get("share_grid") and state.is_batch and len(state.items) > 1:
+        labels.append("shared_grid_object")
+    if is_fractional(state):
+        labels.append("input_grid=fractional_size")
+    pool = [state]
+    state.pool = pool
+    take_snapshot(state)
     changed = False
     applied = 0
-    for op in case["ops"]:
+    fan = 0
+    for k, op in enumerate(case["ops"]):
+        src = op.get("src")
+        idx = len(pool) - 1 if src is None else int(src) % len(pool)
+        is_fan = idx != len(pool) - 1
+        cur = pool[idx].fork()
+        extra = []
+        if op["op"] == "sample":
+            ac_src = bool(cur.grids()[0].align_corners())
+            tgt_of = op["target"].get("of")
+            if is_fractional(cur):
+                labels.append(f"sample_from_fractional:ac={ac_src}")
+            if op["target"].get("derive") or (tgt_of is not None and is_fractional(pool[int(tgt_of) % len(pool)])):
+                labels.append(f"sample_onto_fractional:ac={ac_src}")
         if op["op"] == "pyramid":
-            lab, ch = run_pyramid(state, op, avoid, stats)
+            lab, ch, extra = run_pyramid(cur, op, avoid, stats)
         else:
-            lab, ch = step(state, op, avoid, stats)
+            lab, ch = step(cur, op, avoid, stats)
         labels.append("op=" + lab.split("(")[0])
         if ":noop" not in lab:
             applied += 1
+            for j, s_ in enumerate(extra + [cur]):
+                s_.name = f"result of op {k} ({op['op']})" + (f" other level {j}" if s_ is not cur else "")
+                take_snapshot(s_)
+                pool.append(s_)
+            if is_fan:
+                fan += 1
+                labels.append("reuse_of_earlier_object")
+            verify_pool(pool, idx, op["op"], lab)
         changed = changed or ch
+    labels.append(f"fanout={min(fan, 2)}")
     g0 = case["grids"][0]
     nt = (gen.grid_is_oblique(g0) and gen.grid_is_anisotropic(g0) and (len(case["grids"]) >= 2 or applied >= 2) and changed
           and stats["checked"] > 0)
@@ -1256,17 +1474,36 @@ def opt_bool():
     return st.sampled_from([None, None, True, False])
 
 
+def choice(draw, seq):
+    """Uniform choice (sampled_from is biased towards the first elements when Hypothesis mutates examples)."""
+    return seq[draw(st.integers(0, 10 ** 6)) % len(seq)]
+
+
+FRACTIONAL_MAKERS = ("downsample", "pyramid", "resample")          # leave a fractional internal grid size behind
+SCALAR_FILL_OPS = ("sample", "pad", "center_pad", "region_of_interest", "crop")  # take a scalar fill / padding constant
+
+
 @st.composite
-def op_cases(draw, D, kind):
+def op_cases(draw, D, kind, name=None, position=0, force=None):
+    """One operation. `name` fixes the operation, `position` is its index in the program (for the choice of the operand),
+    `force` = 'fill' makes the scalar fill value / padding constant non-zero, 'plain' the pre-smoothing free halving."""
     batch = kind in ("batch", "flowfields")
     names = ["resize", "resample", "downsample", "upsample", "pyramid", "crop", "pad", "center_crop", "center_pad",
-             "region_of_interest", "narrow", "avg_pool", "conv", "sample"]
+             "region_of_interest", "narrow", "avg_pool", "conv", "sample", "sample"]
     if batch:
         names.append("getitem")
-    name = names[draw(st.integers(0, 10 ** 6)) % len(names)]  # sampled_from is biased towards the first elements
+    if name is None:
+        name = choice(draw, names)
     us = lambda: draw(st.lists(unit(), min_size=D, max_size=D))  # noqa: E731
     dims = draw(st.one_of(st.none(), st.none(), st.lists(st.integers(0, D - 1), min_size=1, max_size=D, unique=True)))
     op = {"op": name}
+    # operand: None = the latest object (chain); an index = an earlier live object, which is thereby used more than once
+    if position >= 3:  # compositions of up to 3 operations: a fourth operation starts from an object of depth <= 2
+        op["src"] = choice(draw, [0, 0, 1, 2])
+    elif position > 0:
+        op["src"] = choice(draw, [None, None, None, None, 0, 0, 1, 2])
+    op["as_tensor"] = choice(draw, [False, False, True])
+    fills = [-3.5, 7.0, 4.25, -100.0] if force == "fill" else [None, 0, -3.5, 7.0, 4.25]
     if name == "resize":
         op.update(u=us(), form=draw(st.sampled_from(["list", "args", "int"])), ac=draw(opt_bool()))
     elif name == "resample":
@@ -1284,15 +1521,17 @@ def op_cases(draw, D, kind):
     elif name in ("crop", "pad"):
         op.update(form=draw(st.sampled_from(["margin_int", "margin", "margin_args", "num", "num", "num_int"])),
                   v=draw(st.lists(st.integers(-2, 3), min_size=2 * D, max_size=2 * D)),
-                  mode=draw(st.sampled_from(["constant", "constant", "zeros", "replicate", "reflect"])),
-                  value=draw(st.sampled_from([None, 0, -3.5, 7])))
+                  mode="constant" if force == "fill" else draw(st.sampled_from(["constant", "constant", "zeros", "replicate", "reflect"])),
+                  value=choice(draw, fills))
     elif name in ("center_crop", "center_pad"):
         op.update(u=us(), form=draw(st.sampled_from(["list", "args", "int"])))
         if name == "center_pad":
-            op.update(mode=draw(st.sampled_from(["constant", "zeros", "replicate", "reflect"])), value=draw(st.sampled_from([None, 0, -3.5])))
+            op.update(mode="constant" if force == "fill" else draw(st.sampled_from(["constant", "zeros", "replicate", "reflect"])),
+                      value=choice(draw, fills))
     elif name == "region_of_interest":
         op.update(u=us(), w=us(), form=draw(st.sampled_from(["tuple", "tuple", "list", "int"])),
-                  padding=draw(st.sampled_from([None, "constant", "replicate", "reflect", 2.5, -1])), value=draw(st.sampled_from([None, 4.0])))
+                  padding=choice(draw, [2.5, -1, -40.0] if force == "fill" else [None, "constant", "replicate", "reflect", 2.5, -1]),
+                  value=draw(st.sampled_from([None, 4.0, -6.0])))
     elif name == "narrow":
         op.update(d=draw(unit()), a=draw(unit()), l=draw(unit()))
     elif name == "avg_pool":
@@ -1305,7 +1544,8 @@ def op_cases(draw, D, kind):
                                                 "enum:reflect"])),
                   none=draw(st.lists(st.booleans(), min_size=D, max_size=D)), full=draw(st.booleans()))
     elif name == "sample":
-        op.update(target=draw(target_specs(D)), padding=draw(st.sampled_from([None, None, "border", "zeros", -3.5])),
+        op.update(target=draw(target_specs(D, position)),
+                  padding=choice(draw, fills[:4] if force == "fill" else [None, None, "border", "zeros", 0, -3.5, 7.0, 4.25]),
                   mode=draw(st.sampled_from([None, "linear"])), as_list=draw(st.booleans()))
     elif name == "getitem":
         op.update(how=draw(st.sampled_from(["ellipsis", "slice", "list"])), a=draw(unit()), l=draw(unit()),
@@ -1314,8 +1554,15 @@ def op_cases(draw, D, kind):
 
 
 @st.composite
-def target_specs(draw, D):
+def target_specs(draw, D, position=0):
+    # 'of': sample on the grid(s) of another live object of the program instead of a generated grid;
+    # 'derive': the generated target grid is itself the result of Grid.downsample() / Grid.resample() (fractional internal size)
+    of = choice(draw, [None, None, None, 0, 1, 1, 2]) if position > 0 else None
+    derive = choice(draw, [None, None, None, "downsample", "resample"])
+    if derive == "resample":
+        derive = {"resample": draw(st.lists(gen.qfloat(0.7, 1.45, 0.05), min_size=D, max_size=D))}
     return {
+        "of": of, "derive": derive,
         "size": draw(st.lists(st.integers(2, 7 if D == 2 else 5), min_size=D, max_size=D)),
         "scale": draw(st.one_of(gen.qfloat(0.4, 1.4, 0.05).map(lambda v: [v] * D), st.lists(gen.qfloat(0.4, 1.4, 0.05), min_size=D, max_size=D))),
         "shift": draw(st.lists(gen.qfloat(-0.4, 0.4, 0.05), min_size=D, max_size=D)),
@@ -1339,21 +1586,68 @@ def batch_grids(draw, D, N):
     return grids
 
 
+def make_odd(grids, D, mask):
+    """Odd numbers of samples along the axes selected by `mask` (halving them leaves a fractional grid size)."""
+    for g in grids:
+        g["size"] = [int(n) if (not mask[k] or n % 2 == 1) else (int(n) + 1 if n < GEN_MAX[D] else int(n) - 1) for k, n in enumerate(g["size"])]
+    return grids
+
+
 def slope_lists(D, N):
     one = st.lists(st.sampled_from([-2.0, -1.5, -1.0, -0.5, 0.5, 1.0, 1.5, 2.0]), min_size=D, max_size=D)
     return st.lists(one, min_size=N, max_size=N)
 
 
 @st.composite
+def input_derivations(draw, D):
+    how = choice(draw, [None, None, None, None, "downsample", "resample"])
+    if how is None:
+        return None
+    if how == "downsample":
+        return {"how": how}
+    return {"how": how, "r": draw(st.lists(gen.qfloat(0.6, 1.6, 0.05), min_size=D, max_size=D))}
+
+
+@st.composite
 def chain_cases(draw):
+    """Programs over a pool of live objects.  plan 'free': 1-4 random operations, each on the latest or an earlier object;
+    plan 'fractional': an operation that leaves a fractional internal grid size (odd sizes) followed by sample() from the
+    result or of the original onto the result's grid; plan 'reuse': an operation with a non-zero scalar fill / padding
+    constant on the input, whose operand is then used again by one or two further operations."""
     D = draw(gen.dims())
     kind = draw(st.sampled_from(["image", "batch", "batch", "batch", "flowfields", "flowfields", "flowfield"]))
     N = draw(st.integers(1, 3)) if kind in ("batch", "flowfields") else 1
+    plan = choice(draw, ["free", "free", "free", "fractional", "reuse"])
+    grids = draw(batch_grids(D, N))
+    odd = draw(st.lists(st.booleans(), min_size=D, max_size=D))
+    if plan == "fractional" and not any(odd):
+        odd[draw(st.integers(0, D - 1))] = True
+    if plan == "fractional" or draw(st.booleans()):
+        make_odd(grids, D, odd)
+    share = choice(draw, [None, None, None, "single", "list"]) if N > 1 else None
+    if plan == "free":
+        n_ops = choice(draw, [1, 2, 2, 3, 3, 4])
+        ops = [draw(op_cases(D, kind, position=k)) for k in range(n_ops)]
+        derive = draw(input_derivations(D))
+    elif plan == "fractional":
+        first = draw(op_cases(D, kind, name=choice(draw, FRACTIONAL_MAKERS)))
+        if first["op"] != "resample" and draw(st.booleans()):
+            first.update(sigma=0, dims=None, min_size=0)
+        second = draw(op_cases(D, kind, name="sample", position=1))
+        # from the result (chain), or the original / the result ONTO the grid of the other
+        second["src"], second["target"]["of"] = choice(draw, [(None, None), (None, None), (0, 1), (0, 1), (None, 0)])
+        ops = [first, second] + [draw(op_cases(D, kind, position=2)) for _ in range(draw(st.integers(0, 1)))]
+        derive = None
+    else:
+        first = draw(op_cases(D, kind, name=choice(draw, SCALAR_FILL_OPS), force="fill"))
+        ops = [first] + [draw(op_cases(D, kind, position=k)) for k in range(1, draw(st.integers(2, 3)))]
+        ops[1]["src"] = 0
+        derive = draw(input_derivations(D))
     case = {
-        "kind": kind, "D": D, "grids": draw(batch_grids(D, N)), "C": draw(st.integers(1, 2)),
+        "kind": kind, "D": D, "grids": grids, "C": draw(st.integers(1, 2)),
         "slopes": draw(slope_lists(D, N)), "b0": draw(st.lists(gen.qfloat(-5.0, 5.0, 0.5), min_size=N, max_size=N)),
         "dtype": draw(st.sampled_from(["float32", "float32", "float64"])),
-        "ops": [draw(op_cases(D, kind)) for _ in range(draw(st.sampled_from([2, 3, 1, 2, 3])))],
+        "ops": ops, "plan": plan, "derive": derive, "share_grid": share,
         "avoid": [k for k in ("K3", "K4") if KNOWN.active(k)],
     }
     return case
@@ -1370,6 +1664,7 @@ def flow_axes_cases(draw):
         "kind": kind, "D": D, "grids": draw(batch_grids(D, N)), "C": D, "axes": draw(st.sampled_from(["grid", "cube", "cube_corners", "world"])),
         "slopes": draw(slope_lists(D, N)), "b0": draw(st.lists(gen.qfloat(-5.0, 5.0, 0.5), min_size=N, max_size=N)),
         "dtype": draw(st.sampled_from(["float32", "float64"])), "ops": [op], "avoid": [],
+        "derive": draw(input_derivations(D)), "share_grid": choice(draw, [None, None, "list"]) if N > 1 else None,
     }
 
 
@@ -1382,13 +1677,16 @@ def run_flow_axes(case):
 
 FACETS = [
     Facet("ramp_chain", run_chain, strategy=chain_cases,
-          rule="Image / ImageBatch(N<=3, distinct grids) / FlowField / FlowFields(WORLD) with per-image linear world ramps, chain of 1-3 "
-               "operations with relative arguments resolved against the current size; non-trivial = rotated anisotropic grid AND "
+          rule="Image / ImageBatch(N<=3, distinct grids or one shared Grid object) / FlowField / FlowFields(WORLD) with per-image linear "
+               "world ramps; program of 1-4 operations over a pool of live objects (plans: free 3/5, fractional-size-then-sample 1/5, "
+               "scalar-fill-then-reuse 1/5; operand = latest or earlier object; odd sizes 1/2; derived fractional input grid 1/3) with "
+               "relative arguments resolved against the current size; non-trivial = rotated anisotropic grid AND "
                "(N >= 2 or >= 2 applied operations) AND an operation changed the size AND >= 1 sample compared",
-          quick=1400, thorough=30000, shards=16, quick_shards=8),
+          quick=2000, thorough=30000, shards=16, quick_shards=8),
     Facet("flow_sample_axes", run_flow_axes, strategy=flow_axes_cases,
           rule="FlowField(s) whose WORLD vectors are linear in world position, stored w.r.t. grid/cube/cube_corners/world axes, sampled on "
-               "one target grid per image; expected = (world -> axes of the TARGET grid) applied to the ramp; non-trivial = rotated "
-               "anisotropic grid, non-world axes, >= 1 sample compared",
-          quick=300, thorough=6000, shards=8, quick_shards=2),
+               "one target grid per image (input and target grids also derived with a fractional internal size); expected = "
+               "(world -> axes of the TARGET grid) applied to the ramp; non-trivial = rotated anisotropic grid, non-world axes, "
+               ">= 1 sample compared",
+          quick=400, thorough=6000, shards=8, quick_shards=2),
 ]
